@@ -64,7 +64,7 @@ pub fn run_market_spec(ctx: &Ctx, check: &'static str, flags: u32, types: &[usiz
                         break;
                     }
                     let mut r = Sm::derive(ctx.seed, 0x3A000 + i as u64);
-                    let cfg = MarketCfg { type_idx: types[i % types.len()], flags, sub_seed: r.next(), n_ops: n_ops / 2 + r.below(n_ops as u64) as usize, stop_after: None };
+                    let cfg = MarketCfg { type_idx: if i % 37 == 36 { WIDE_MARKET_TYPES[(i / 37) % WIDE_MARKET_TYPES.len()] } else { types[i % types.len()] }, flags, sub_seed: r.next(), n_ops: n_ops / 2 + r.below(n_ops as u64) as usize, stop_after: None };
                     if let Err(f) = market_guarded(&cfg, &mut cs, &mut keys, &mut sample, &ctx.scratch) {
                         n_viol.fetch_add(1, Ordering::Relaxed);
                         let mut cfg2 = cfg.clone();
